@@ -28,7 +28,7 @@ class _ClosedDict(collections.abc.MutableMapping):
     def closed(self, *args):
         raise ValueError('invalid operation on closed dict')
 
-    __iter__ = __len__ = __getitem__ = __setitem__ = __delitem__ = keys = closed
+    __iter__ = __len__ = __getitem__ = __setitem__ = __delitem__ = keys = sync = closed
 
     def __repr__(self):
         return '<Closed Dictionary>'
